@@ -282,6 +282,7 @@ def run_shard(rec, shard, nshards):
         _state["steps"].shutdown()
     if shard == 3:
         sharing_ladder(rec)
+        key_kind_ladder(rec)
     rec.samples.append({"seed_envelopes": len(seeds), "inputs_parsed": rec.evaluations,
                         "max_local_steps_per_byte": rec.extra["max_local_steps_per_byte"],
                         "max_case_ms": rec.extra["max_case_ms"]})
@@ -487,6 +488,71 @@ def sharing_ladder(rec):
     rec.extra["sharing_ladder"] = rows
 
 
+KEY_KINDS = {"unknown-int-99": 99, "negative-int": -5, "big-int": 2 ** 40, "bstr-key": b"\x01", "text-key": "#d",
+             "true": True, "float": 2.5, "null": None}
+
+
+def key_kind_ladder(rec):
+    """nesting under EVERY kind of member key: level n = envelope { K: level n-1 } for K an unknown integer, a negative
+    or big integer, a byte string, a text (the ordinary dependency case, as control), true, a float, null - with the
+    inner level bstr-wrapped or bare.  A parser that probes "is this value an envelope?" more than once per level does
+    2^n work on 7 bytes per level.  Observable: CPU-time growth from 8 to 14 levels (linear 1.75x, quadratic 3x, doubling
+    per level 64x); the deeper input is only tried when the shallower one was cheap"""
+    from suit_generator.suit.envelope import SuitEnvelopeTagged
+    from ..indep.mcbor import enc, Tag, Pairs, Raw
+    rows = []
+    for kname, key in KEY_KINDS.items():
+        for wrapped in (True, False):
+            def build(n):
+                x = enc(Tag(107, Pairs([])))
+                for _ in range(n):
+                    x = enc(Tag(107, Pairs([(key, x if wrapped else Raw(x))])))
+                return x
+
+            def cpu(n):
+                data = build(n)
+                best = None
+                o = None
+                for _ in range(2):
+                    t0 = time.process_time()
+                    try:
+                        SuitEnvelopeTagged.from_cbor(data).to_obj()
+                        o = "model"
+                    except Exception as e:  # noqa
+                        o = "input-error" if classify(e) is None else type(e).__name__
+                    dt = time.process_time() - t0
+                    best = dt if best is None else min(best, dt)
+                return len(data), best, o
+            name = f"{kname}/{'bstr-wrapped' if wrapped else 'bare'}"
+            try:
+                l8, t8, o8 = cpu(8)
+            except Exception as e:  # noqa - the harness encoder cannot build this key kind
+                rec.count("key-kind-ladder-not-buildable")
+                continue
+            row = {"key": name, "len_8": l8, "cpu_8": round(t8, 4), "outcome_8": o8}
+            rec.count("key-kind-ladder-inputs")
+            rec.case(f"keykind/{name}/8", True)
+            if o8 not in ("model", "input-error"):
+                rec.violation("internal-error:" + o8, f"{o8} escaped the parser (nesting under key kind {name}, 8 levels)",
+                              {"kind": "keykind", "key": name, "levels": 8})
+            if t8 > 0.5:
+                rec.violation("cpu-time-grows-exponentially-with-nesting",
+                              f"{name}: {t8:.2f} s of CPU for a {l8}-byte input with 8 levels",
+                              {"kind": "keykind", "key": name, "levels": 8})
+            else:
+                l14, t14, o14 = cpu(14)
+                ratio = t14 / max(t8, 0.005)
+                row.update(len_14=l14, cpu_14=round(t14, 4), outcome_14=o14, ratio_14_vs_8=round(ratio, 1))
+                rec.case(f"keykind/{name}/14", True)
+                if ratio > SHARE_GROWTH:
+                    rec.violation("cpu-time-grows-exponentially-with-nesting",
+                                  f"{name}: CPU time {t8 * 1000:.1f} ms for 8 levels ({l8} B) but {t14 * 1000:.0f} ms for "
+                                  f"14 levels ({l14} B): the work doubles per level instead of following the input size",
+                                  {"kind": "keykind", "key": name})
+            rows.append(row)
+    rec.extra["key_kind_ladder"] = rows
+
+
 def alloc_monitor(rec, inputs):
     if not inputs:
         return
@@ -531,6 +597,8 @@ def finish(merged, tier, seed):
         merged["inconclusive"].append("wide ladder incomplete")
     if cnt.get("sharing-ladder-inputs", 0) < len(Hx.SHARING_PLACEMENTS):
         merged["inconclusive"].append("shared-reference ladder incomplete")
+    if cnt.get("key-kind-ladder-inputs", 0) < 12:
+        merged["inconclusive"].append("key-kind nesting ladder incomplete")
     if cnt.get("wrapped-nesting-depths", 0) < 100:
         merged["inconclusive"].append("wrapped nesting ladder incomplete")
     for k in ("kind:type", "kind:inflate", "kind:nest-plain", "kind:bytes", "tracemalloc-sampled", "file-route:load",
@@ -549,6 +617,7 @@ def finish(merged, tier, seed):
         "alloc_monitor": (ex.get("alloc_monitor") or ["not run"])[0],
         "wide_ladder": (ex.get("wide_ladder") or [[]])[0],
         "sharing_ladder": (ex.get("sharing_ladder") or [[]])[0],
+        "key_kind_ladder": (ex.get("key_kind_ladder") or [[]])[0],
     }
     return out
 
